@@ -126,10 +126,15 @@ func (this *Conn) NodeIds() []uint64 {
 
 func (this *Conn) AddNode(id uint64, address string) {
 	this.addressesMu.Lock()
-	defer this.addressesMu.Unlock()
-
-	if _, exists := this.addresses[id]; !exists {
+	_, exists := this.addresses[id]
+	if !exists {
 		this.addresses[id] = address
+	}
+	this.addressesMu.Unlock()
+
+	// Notify without holding addressesMu: receivers read the address book
+	// (NodeIds) and the notification channels are bounded.
+	if !exists {
 		this.sendNodesChangeNotification(&nodesChange {
 			Type: NodesChangeAddNode,
 			NodeId: id,
@@ -140,11 +145,9 @@ func (this *Conn) AddNode(id uint64, address string) {
 
 func (this *Conn) RemoveNode(id uint64) {
 	this.addressesMu.Lock()
-	defer this.addressesMu.Unlock()
 	this.connsMu.Lock()
-	defer this.connsMu.Unlock()
-
-	if _, exists := this.addresses[id]; exists {
+	_, exists := this.addresses[id]
+	if exists {
 		delete(this.addresses, id)
 		if conn, exists := this.conns[id]; exists {
 			if err := conn.Close(); err != nil {
@@ -152,6 +155,11 @@ func (this *Conn) RemoveNode(id uint64) {
 			}
 			delete(this.conns, id)
 		}
+	}
+	this.connsMu.Unlock()
+	this.addressesMu.Unlock()
+
+	if exists {
 		this.sendNodesChangeNotification(&nodesChange {
 			Type: NodesChangeRemoveNode,
 			NodeId: id,
